@@ -87,7 +87,15 @@ func runSolver(s solverSpec, file string, timeoutS int) (string, string, float64
 	_ = cmd.Run()
 	secs := time.Since(t0).Seconds()
 	text := out.String()
-	first := strings.TrimSpace(strings.SplitN(text, "\n", 2)[0])
+	first := ""
+	for _, l := range strings.Split(text, "\n") {
+		l = strings.TrimSpace(l)
+		if l == "" || strings.HasPrefix(l, "WARNING") {
+			continue
+		}
+		first = l
+		break
+	}
 	switch first {
 	case "sat", "unsat", "unknown":
 		return first, text, secs
